@@ -55,6 +55,8 @@ def run(chk, crate="rssl_hlsl", P="C01"):
         rule_folded_constants(chk)
         import semmodel
         semmodel.rule_hlsl(chk, "C01.semantic")
+        import c03
+        c03.rule_local_type(chk, prefix="C01.decl/local-modifier-order")      # a `static` the typer does not see is a `static` the exporter does not print
     rule_text(chk, P)
 
 
